@@ -48,6 +48,7 @@ const (
 	promptly = 3 * time.Second
 	markBit  = 0x40000000
 	panicBit = 0x20000000 // the handler of this message panics
+	waitBit  = 0x10000000 // the handler of this message waits for the first CloseNotify channel to be closed
 )
 
 func appMessage(seq int, marked bool) []byte {
@@ -84,13 +85,29 @@ type harness struct {
 	seqs  []int
 	chans []<-chan struct{}
 	cond  *sync.Cond
+
+	entered chan struct{} // closed when the waiting handler (waitBit) has started
+	fired   chan bool     // what the waiting handler saw: the channel closed (true) or patience ran out
 }
 
 func (h *harness) handler(c diam.Conn, m *diam.Message) {
 	if m.Header.HopByHopID&panicBit != 0 {
 		panic("scripted handler panic")
 	}
-	seq := int(m.Header.HopByHopID &^ markBit)
+	if m.Header.HopByHopID&waitBit != 0 {
+		// net/http style: long work in a handler that is abandoned when the peer goes away
+		h.mu.Lock()
+		ch := h.chans[0]
+		h.mu.Unlock()
+		close(h.entered)
+		select {
+		case <-ch:
+			h.fired <- true
+		case <-time.After(promptly):
+			h.fired <- false
+		}
+	}
+	seq := int(m.Header.HopByHopID &^ (markBit | waitBit))
 	var ch <-chan struct{}
 	if m.Header.HopByHopID&markBit != 0 {
 		ch = c.(diam.CloseNotifier).CloseNotify()
@@ -170,7 +187,7 @@ func runCase(c Case) *ev.Failure {
 	if pre := leaked(2 * time.Second); pre != "" {
 		return ev.Failf("harness-leak-before", "a library goroutine from an earlier case is still alive:\n%s", pre)
 	}
-	h := &harness{}
+	h := &harness{entered: make(chan struct{}), fired: make(chan bool, 1)}
 	h.cond = sync.NewCond(&h.mu)
 	mc := memnet.NewConn()
 	var conn diam.Conn
@@ -289,7 +306,40 @@ func runCase(c Case) *ev.Failure {
 			return ev.Failf("closed-early", "CloseNotify channel %d is closed although the connection has not terminated", i)
 		}
 	}
-	switch c.Term {
+	waits := strings.HasSuffix(c.Term, "-handler-waits")
+	if waits {
+		// A channel exists, the reader has gone back to the transport since it was requested (one
+		// more message makes sure of it, so the notifier routine is what reads the transport now),
+		// and then a handler waits for the channel while the connection goes away under it.
+		if len(chans) == 0 {
+			ch := cn.CloseNotify()
+			h.mu.Lock()
+			h.chans = append(h.chans, ch)
+			h.mu.Unlock()
+			chans = append(chans, ch)
+		}
+		mc.Feed(appMessage(sent, false))
+		sent++
+		if !h.waitHandled(sent, promptly) || !mc.WaitParked(promptly) {
+			cleanup()
+			return ev.Failf("message-not-dispatched", "the message after the CloseNotify request was not handled within %v", promptly)
+		}
+		m := appMessage(sent, false)
+		m[12] |= byte(waitBit >> 24)
+		sent++
+		mc.Feed(m)
+		select {
+		case <-h.entered:
+		case <-time.After(promptly):
+			cleanup()
+			return ev.Failf("message-not-dispatched", "the message whose handler waits was not dispatched within %v", promptly)
+		}
+		if !mc.WaitParked(promptly) {
+			cleanup()
+			return ev.Failf("harness-park", "nothing reads the transport while the handler waits")
+		}
+	}
+	switch strings.TrimSuffix(c.Term, "-handler-waits") {
 	case "eof":
 		mc.FeedEOF()
 	case "read-error":
@@ -321,6 +371,12 @@ func runCase(c Case) *ev.Failure {
 		mc.Feed([]byte("220 mail.example ESMTP ready\r\n"))
 		mc.FeedEOF()
 	}
+	if waits {
+		if !<-h.fired {
+			cleanup()
+			return ev.Failf("never-fired-while-handler-waits", "a handler waited %v for a CloseNotify channel requested earlier (the notifier routine was reading the transport); the connection terminated (%q) and the channel was not closed", promptly, c.Term)
+		}
+	}
 	if !mc.WaitClosed(promptly) {
 		cleanup()
 		return ev.Failf("transport-not-closed", "the transport was not closed within %v of the terminating event %q", promptly, c.Term)
@@ -336,6 +392,9 @@ func runCase(c Case) *ev.Failure {
 			cleanup()
 			return ev.Failf("late-request-never-fired", "a CloseNotify channel requested after termination (%q) was not closed within %v", c.Term, promptly)
 		}
+	}
+	if waits {
+		h.waitHandled(sent, promptly) // the waiting handler records its message after it saw the channel
 	}
 	h.mu.Lock()
 	seqs := append([]int{}, h.seqs...)
@@ -354,7 +413,8 @@ func runCase(c Case) *ev.Failure {
 	return nil
 }
 
-var terms = []string{"eof", "read-error", "garbage-small", "garbage-large", "local-close", "last-with-eof", "last-with-error", "handler-panic"}
+var terms = []string{"eof", "read-error", "garbage-small", "garbage-large", "local-close", "last-with-eof", "last-with-error", "handler-panic",
+	"eof-handler-waits", "read-error-handler-waits", "local-close-handler-waits"}
 
 func classify(c Case) (bool, []string) {
 	cl := []string{"mode:" + c.Mode, "term:" + c.Term}
@@ -377,6 +437,10 @@ func classify(c Case) (bool, []string) {
 			reqs++
 			cl = append(cl, "request-any-time")
 		}
+	}
+	if strings.HasSuffix(c.Term, "-handler-waits") {
+		reqs++
+		msgs += 2
 	}
 	if c.Mode == "client" {
 		reqs++ // the watchdog goroutine requests it right after the handshake
@@ -428,7 +492,7 @@ func genCase(t *rapid.T) Case {
 
 var prop = ev.Register(&ev.Prop[Case]{
 	ID: "C14", Name: "closenotify",
-	Rule: "orders of events {deliver 1..4 valid messages in arbitrary fragments (optionally one handler requests CloseNotify), request CloseNotify from another goroutine while the reader is parked, request it at an arbitrary moment} followed by exactly one terminating event {peer EOF, transport read error, undecodable message with 200 B / 9 KB of trailing data, local Close} and 0..2 requests after termination; on a plain connection and through sm.Client with the watchdog enabled; every channel must be open before and closed within 3 s after termination, messages dispatched once each in order, and no goroutine with diam.(*conn).serve / closeNotify.func / sm.(*Client).watchdog on its stack may remain; non-trivial = at least one CloseNotify request and one delivered message; distinct by event order",
+	Rule: "orders of events {deliver 1..4 valid messages in arbitrary fragments (optionally one handler requests CloseNotify), request CloseNotify from another goroutine while the reader is parked, request it at an arbitrary moment} followed by exactly one terminating event {peer EOF, transport read error, undecodable message with 200 B / 9 KB of trailing data, local Close, the last message together with EOF / error, handler panic; EOF / read error / local Close while a handler waits for a channel requested earlier} and 0..2 requests after termination; on a plain connection and through sm.Client with the watchdog enabled; every channel must be open before and closed within 3 s after termination, messages dispatched once each in order, and no goroutine with diam.(*conn).serve / closeNotify.func / sm.(*Client).watchdog on its stack may remain; non-trivial = at least one CloseNotify request and one delivered message; distinct by event order",
 	Gen:  genCase, Run: runCase, Classify: classify, Attempts: 5,
 })
 
